@@ -212,6 +212,21 @@ def run(cx):
         # block where the awaited inner result is taken (Ready edge)
         ready = [i for i, bl in enumerate(co.blocks) if not bl.get("cleanup") for s in bl["s"] if s["k"] == "assign" and s["lhs"] == 0
                  and term_has_call(o.of_rvalue(s["rv"]), "tower_service::Service::call")]      # (explicit `return Err(..)` arms assign _0 too)
+        # ... or, when the result is parked in a local first (`let result = fut.await; drop(permit); result`), the block
+        # where the completed inner future's output is taken: that is where the inner call is over
+        taken = []
+        for i, bl in enumerate(co.blocks):
+            if bl.get("cleanup"):
+                continue
+            for s in bl["s"]:
+                if s["k"] != "assign" or s["lhs"] == 0:
+                    continue
+                tv = strip_identity(o.of_rvalue(s["rv"]))
+                if tv[0] == "field" and tv[2] == "0" and tv[1][0] == "variant" and tv[1][2] == "Ready" and term_has_call(tv, "tower_service::Service::call") \
+                        and strip_identity(tv[1][1])[0] == "call" and name_matches(strip_identity(tv[1][1])[1], "Future::poll"):
+                    taken.append(i)
+        if taken and len(set(taken)) == 1 and all(co.all_paths_pass(taken[0], [r_], [taken[0]]) for r_ in ready):
+            ready = [taken[0]]
         ob.floor(ready, 1, "assignment of the inner result", exact=True)
         R = ready[0]
         holders = []
